@@ -253,7 +253,24 @@ def _plain(heap, dref):
     return out, objs
 
 
-def r6_generic_relation(rep, src):
+def r6_generic_relation(rep, src, tier='quick'):
+    global GEN
+    base = GEN
+    rels = [('', base)]
+    if tier == 'thorough':
+        rels += [(' [empty collection]', {}), (' [single pair]', {'pkg-one': {'role::a'}}),
+                 (' [one tag shared by all]', {'pkg-one': {'use::c'}, 'pkg-two': {'use::c'}, 'pkg-three': {'use::c'}}),
+                 (' [only untagged packages]', {'pkg-one': set(), 'pkg-none': set()}),
+                 (' [dense]', {p_: {'role::a', 'role::b', 'use::c', 'use::d'} for p_ in ('pkg-one', 'pkg-two', 'pkg-three', 'pkg-five')})]
+    try:
+        for label, rel in rels:
+            GEN = rel
+            _r6(rep, src, label, label == '')
+    finally:
+        GEN = base
+
+
+def _r6(rep, src, label, full):
     """every collection-returning method of DB, the module functions and insert() interpreted on a generic finite relation
     (packages with several / shared / no tags, multi-character names, filters that keep some, drop all users of a tag, and name
     absent keys).  Checked against a reference computed here: the content of the result, `rdb = inverse(db)` (no tag without
@@ -267,7 +284,7 @@ def r6_generic_relation(rep, src):
         if pname == 'tag_filter':
             return ('hook', 'TF')
         if pname == 'package_iter':
-            return ['pkg-one', 'pkg-three', 'pkg-none']
+            return [p_ for p_ in ('pkg-one', 'pkg-three', 'pkg-none') if p_ in GEN]      # (choose_packages_copy raises KeyError for unknown names: outside the property)
         if pname == 'package_tag_filter':
             return ('hook', 'PTF')
         return None
@@ -313,7 +330,7 @@ def r6_generic_relation(rep, src):
         n += 1
         db, dsets = _plain(heap, heap.objs[res.name].get('db'))
         rdb, rsets = _plain(heap, heap.objs[res.name].get('rdb'))
-        what = 'result indexes are inverse'
+        what = 'result indexes are inverse' + label
         if db is None or rdb is None:
             rep.fail('C20.R1', f.site, what, 'the returned collection has no db/rdb dictionaries', where=f.where)
             continue
@@ -339,23 +356,25 @@ def r6_generic_relation(rep, src):
         if mname in spec:
             want = {k: frozenset(v) for k, v in spec[mname]().items()}
             if db != want:
-                rep.fail('C20.R1', f.site, 'result content', '%s returns the packages/tags %s; documented result: %s' % (mname, {k: sorted(v) for k, v in db.items()}, {k: sorted(v) for k, v in want.items()}), where=f.where)
+                rep.fail('C20.R1', f.site, 'result content' + label, '%s returns the packages/tags %s; documented result: %s' % (mname, {k: sorted(v) for k, v in db.items()}, {k: sorted(v) for k, v in want.items()}), where=f.where)
             else:
-                rep.ok('C20.R1', f.site, 'result content', 'as documented')
+                rep.ok('C20.R1', f.site, 'result content' + label, 'as documented')
         # ownership of the set objects
         shared_r = [s_ for s_ in rsets if any(s_ is o for o in own_sets + own_rsets)]
         shared_d = [s_ for s_ in dsets if any(s_ is o for o in own_rsets)]
         same_dicts = {heap.objs[res.name]['db'].name, heap.objs[res.name]['rdb'].name} == {'@db.db', '@db.rdb'}
         doc = (ast.get_docstring(f.node) or '').lower()
         if (shared_r or shared_d) and not same_dicts:
-            rep.fail('C20.R5', f.site, 'no shared mutable sets',
+            rep.fail('C20.R5', f.site, 'no shared mutable sets' + ('' if full or f.qual == 'DB.filter_tags' else label),
                      'the returned collection is a separate object but its %s index uses set objects of the receiver, which a later insert() on either collection '
                      'extends in place: afterwards one collection lists a package under a tag without listing the tag for the package%s'
                      % ('tag→packages' if shared_r else 'package→tags', ' (the docstring promises a copy)' if 'copy' in doc and 'sharing' not in doc else ''), where=f.where)
         else:
-            rep.ok('C20.R5', f.site, 'no shared mutable sets', 'same dictionaries as the receiver' if same_dicts else 'no set object that insert() mutates is shared')
+            rep.ok('C20.R5', f.site, 'no shared mutable sets' + label, 'same dictionaries as the receiver' if same_dicts else 'no set object that insert() mutates is shared')
     if n < 12:
         raise AnalysisError('only %d collection-returning methods interpreted (12 confirmed on the pinned tree)' % n)
+    if not full:
+        return
     # module-level reverse()
     g = src.func(M + ':reverse')
     rep.saw_func(g)
@@ -468,7 +487,7 @@ def check(src, rep, tier):
     rep.need('C20.R3', 4)
     rep.need('C20.R4', 8)
     rep.need('C20.R5', 12)
-    rep.guard('C20.R1', r6_generic_relation, src)
+    rep.guard('C20.R1', r6_generic_relation, src, tier)
     rep.guard('C20.R1', r1_algebra, src)
 
 
